@@ -173,10 +173,15 @@ fn block_header_rt(k: Option<u8>, valid_only: bool, dict_symbolic: bool) {
     core::mem::forget(w);
 }
 
-//@ {"name":"c02d_block_header_rt_0","props":["C02","C03"],"obligation":"C02-D","timeout":1800,"mem_gb":9,"functions":["xz::writer::XZWriter::new","xz::writer::XZWriter::write_block_header","xz::writer::XZWriter::encode_lzma2_dict_size","xz::reader::BlockHeader::parse"],"bounds":"no pre-filter; dict_size any value in [4096, 3 GiB]; unwind 42","assumes":[]}
+//@ {"name":"c02d_block_header_rt_0","props":["C02","C03"],"obligation":"C02-D","timeout":1800,"mem_gb":9,"functions":["xz::writer::XZWriter::new","xz::writer::XZWriter::write_block_header","xz::writer::XZWriter::encode_lzma2_dict_size","xz::reader::BlockHeader::parse"],"bounds":"no pre-filter; dict_size 4096 (every dictionary size: c02c_xz_dict_prop_covers for the writer, c03d_block_header12_accept for the parser, and the thorough variant); unwind 42","assumes":[]}
 #[kani::proof]
 #[kani::unwind(42)]
-fn c02d_block_header_rt_0() { block_header_rt(None, true, true); }
+fn c02d_block_header_rt_0() { block_header_rt(None, true, false); }
+
+//@ {"name":"c02d_block_header_rt_0_anydict","props":["C02","C03"],"tier":"thorough","obligation":"C02-D","timeout":3600,"mem_gb":9,"functions":["xz::writer::XZWriter::new","xz::writer::XZWriter::write_block_header","xz::writer::XZWriter::encode_lzma2_dict_size","xz::reader::BlockHeader::parse"],"bounds":"no pre-filter; dict_size any value in [4096, 3 GiB]; unwind 42","assumes":[]}
+#[kani::proof]
+#[kani::unwind(42)]
+fn c02d_block_header_rt_0_anydict() { block_header_rt(None, true, true); }
 
 //@ {"name":"c02d_block_header_rt_delta","props":["C02","C03"],"tier":"thorough","obligation":"C02-D","timeout":1800,"mem_gb":9,"functions":["xz::writer::XZWriter::new","xz::writer::XZWriter::write_block_header","xz::reader::BlockHeader::parse"],"bounds":"one Delta pre-filter, property any VALID u32 (delta 1..=256 / BCJ offset aligned); LZMA2 dict 4096; unwind 42","assumes":["filter parameter inside its documented range"]}
 #[kani::proof]
@@ -342,7 +347,7 @@ fn index_footer_rt(nrec: usize, small: bool) {
 #[kani::unwind(12)]
 fn c02e_index_footer_rt_0() { index_footer_rt(0, true); }
 
-//@ {"name":"c02e_index_footer_rt_1_small","props":["C02","C03"],"obligation":"C02-E","timeout":1800,"mem_gb":9,"functions":["xz::writer::XZWriter::write_index","xz::writer::XZWriter::write_stream_footer","xz::reader::Index::parse","xz::reader::StreamFooter::parse"],"bounds":"one record, unpadded size any value in [1, 2^14), uncompressed size any value < 2^14 (1-2 byte multibyte integers); check type CRC32; unwind 12","assumes":[]}
+//@ {"name":"c02e_index_footer_rt_1_small","props":["C02","C03"],"tier":"thorough","obligation":"C02-E","timeout":1800,"mem_gb":9,"functions":["xz::writer::XZWriter::write_index","xz::writer::XZWriter::write_stream_footer","xz::reader::Index::parse","xz::reader::StreamFooter::parse"],"bounds":"one record, unpadded size any value in [1, 2^14), uncompressed size any value < 2^14 (1-2 byte multibyte integers); check type CRC32; unwind 12","assumes":[]}
 #[kani::proof]
 #[kani::unwind(12)]
 fn c02e_index_footer_rt_1_small() { index_footer_rt(1, true); }
